@@ -39,8 +39,9 @@ m = {
     "engines": [
         {"name": "lean4-proof+correspondence", "path": "tools/verif.py",
          "serves_properties": [c["property_id"] for c in checks],
-         "kind_free_text": "Lean 4 theorems about hand-written executable models (lean/Momo), constants regenerated from the headers on every run "
-                           "(tools/extract.py), models tied to the code by a line-protocol correspondence check (harness/*.cpp vs lean/Driver)"}],
+         "kind_free_text": "Lean 4 theorems about hand-written executable models (lean/Momo); constants (tools/extract.py) and the bodies of small "
+                           "integer functions (tools/translate.py, with kernel-checked equalities to the model functions) are regenerated from the "
+                           "headers on every run; models tied to the code by a line-protocol correspondence check (harness/*.cpp vs lean/Driver)"}],
     "checks": checks,
     "not_applicable": na,
     "notes": "See DESIGN.md. Known findings: known_findings.json. Seeded changes used to test the checks: seeded/.",
